@@ -392,6 +392,13 @@ type HAMTDirectory struct {
 	sizeChange int
 	totalLinks int
 
+	// totalLinksRelative says what totalLinks counts. A directory loaded from an
+	// existing node does not know how many entries it has (finding out means
+	// fetching every shard), so it only tracks the entries added and removed
+	// since then and totalLinksRelative is true. countLinks replaces the value
+	// by the real number of entries the first time it is needed.
+	totalLinksRelative bool
+
 	// Size estimation mode. If nil, falls back to global HAMTSizeEstimation.
 	sizeEstimation *SizeEstimationMode
 
@@ -503,7 +510,11 @@ func NewHAMTDirectoryFromNode(dserv ipld.DAGService, node ipld.Node) (*HAMTDirec
 		return nil, err
 	}
 	dir.shard = shard
-	dir.totalLinks = len(node.Links())
+	// The number of links of the root shard node is not the number of
+	// directory entries (entries that share a bucket sit in a child shard), so
+	// the entry count is unknown here. See countLinks.
+	dir.totalLinks = 0
+	dir.totalLinksRelative = true
 
 	return dir, nil
 }
@@ -1129,6 +1140,13 @@ func (d *HAMTDirectory) needsToSwitchToBasicDir(ctx context.Context, name string
 		return false, nil
 	}
 
+	// The MaxLinks constraint below needs the real number of entries.
+	if d.maxLinks > 0 {
+		if err := d.countLinks(ctx); err != nil {
+			return false, err
+		}
+	}
+
 	// Find if there is an old entry under that name that will be overwritten
 	// (AddEntry) or flat out removed (RemoveEntry).
 	entryToRemove, err := d.shard.Find(ctx, name)
@@ -1182,6 +1200,31 @@ func (d *HAMTDirectory) needsToSwitchToBasicDir(ctx context.Context, name string
 	}
 
 	return canSwitchSize && canSwitchMaxLinks, nil
+}
+
+// countLinks makes totalLinks the real number of entries of a directory that
+// was loaded from an existing node, by enumerating it once.
+func (d *HAMTDirectory) countLinks(ctx context.Context) error {
+	if !d.totalLinksRelative {
+		return nil
+	}
+	ctx, cancel := context.WithCancel(ctx)
+	defer cancel()
+	n := 0
+	linkResults := d.EnumLinksAsync(ctx)
+	for linkResult := range linkResults {
+		if linkResult.Err != nil {
+			cancel()
+			// Wait for channel to close so links are not being read after return.
+			for range linkResults {
+			}
+			return linkResult.Err
+		}
+		n++
+	}
+	d.totalLinks = n
+	d.totalLinksRelative = false
+	return nil
 }
 
 // linkSizeFor returns the size contribution of a link based on the current estimation mode.
